@@ -22,7 +22,28 @@ func AllAdmittingUnknowns(part cty.Value, allowDynamic bool) []cty.Value {
 	}
 	u := cty.UnknownVal(ty)
 	out = append(out, u)
-	if !part.IsKnown() || part.IsNull() {
+	if part.IsKnown() && part.IsNull() {
+		// A null is admitted by any unknown that is not refined as non-null:
+		// bounds, prefixes and length bounds speak only about the non-null case.
+		switch {
+		case ty == cty.Number:
+			out = append(out,
+				u.Refine().NumberRangeLowerBound(cty.NumberIntVal(0), true).NumberRangeUpperBound(cty.NumberIntVal(5), true).NewValue(),
+				u.Refine().NumberRangeLowerBound(cty.NumberIntVal(10), true).NumberRangeUpperBound(cty.NumberIntVal(20), true).NewValue(),
+				u.Refine().NumberRangeUpperBound(cty.NumberIntVal(-1), false).NewValue(),
+			)
+		case ty == cty.String:
+			out = append(out, u.Refine().StringPrefixFull("foo").NewValue(), u.Refine().StringPrefixFull("bar").NewValue())
+		case ty.IsCollectionType():
+			out = append(out,
+				u.Refine().CollectionLengthLowerBound(1).CollectionLengthUpperBound(2).NewValue(),
+				u.Refine().CollectionLengthLowerBound(4).NewValue(),
+				u.Refine().CollectionLengthUpperBound(0).NewValue(),
+			)
+		}
+		return out
+	}
+	if !part.IsKnown() {
 		return out
 	}
 	out = append(out, u.RefineNotNull())
